@@ -627,7 +627,7 @@ def roundtrip_strategy(max_gens, max_edges, max_salts):
                 g["base"] = "new"
                 g["graph"] = draw(graph_strategy(flo, fhi, max_edges))
             gens.append(g)
-        return {"lo": lo, "hi": hi, "gens": gens}
+        return {"lo": lo, "hi": hi, "gens": gens, "dir_mode": draw(st.sampled_from(["explicit", "explicit", "relative", "env"]))}
 
     return cases()
 
@@ -656,14 +656,30 @@ def _sandbox():
 _CFG_CACHE = {}
 
 
-def make_cfg(lo, hi, snap_dir):
+def make_cfg(lo, hi, root, dir_mode="explicit"):
+    """Validated config + the directory the snapshots will live in.
+    explicit: t4.snapshot_dir = <sandbox>/snap (absolute);  relative: the validated default ('./.data/snapshots',
+    resolved against the sandbox cwd);  env: no t4.snapshot_dir at all -> clematis.io.paths.snapshots_dir() ->
+    $CLEMATIS_SNAPSHOT_DIR (= <sandbox>/snap)."""
     from harness import world
     key = (repr(lo), repr(hi))
     if key not in _CFG_CACHE:
         _CFG_CACHE[key] = world.validated_cfg({"t4": {"weight_min": lo, "weight_max": hi}})
     cfg = copy.deepcopy(_CFG_CACHE[key])
-    cfg["t4"]["snapshot_dir"] = snap_dir
-    return cfg
+    snap_dir = os.path.join(root, "snap")
+    if dir_mode == "explicit":
+        cfg["t4"]["snapshot_dir"] = snap_dir
+    elif dir_mode == "relative":
+        rel = str(cfg["t4"].get("snapshot_dir") or "./.data/snapshots")
+        if os.path.isabs(rel):
+            raise RuntimeError(f"harness: validated default t4.snapshot_dir is absolute: {rel}")
+        snap_dir = os.path.abspath(rel)  # cwd is <sandbox>/cwd
+    elif dir_mode == "env":
+        cfg["t4"].pop("snapshot_dir", None)
+        snap_dir = os.path.realpath(snap_dir)
+    else:
+        raise RuntimeError(f"unknown dir_mode {dir_mode}")
+    return cfg, snap_dir
 
 
 class Clock:
@@ -903,8 +919,9 @@ def run_history(case):
     labels.add(f"gens:{len(case['gens'])}")
 
     with _sandbox() as root:
-        snap_dir = os.path.join(root, "snap")
-        cfg = make_cfg(lo, hi, snap_dir)
+        dir_mode = case.get("dir_mode", "explicit")
+        labels.add("dir:" + dir_mode)
+        cfg, snap_dir = make_cfg(lo, hi, root, dir_mode)
         clock = Clock()
         prev_loaded_graph = None
         agents_seen = []
@@ -985,7 +1002,7 @@ def run_history(case):
                 if picked is None or os.path.abspath(picked) != os.path.abspath(path_ref):
                     V(f"{tag}: _pick_latest_snapshot_path chose {os.path.basename(picked) if picked else None!r}; the newest real "
                       f"snapshot body is {os.path.basename(path_ref)!r} (directory: {listing(snap_dir)})", "discovery-pick")
-                info = S.get_latest_snapshot_info(snap_dir)
+                info = S.get_latest_snapshot_info(None if dir_mode == "env" else snap_dir)
                 if not isinstance(info, dict) or os.path.abspath(str(info.get("path"))) != os.path.abspath(path_ref):
                     V(f"{tag}: get_latest_snapshot_info -> {short(info)}; expected path {path_ref!r}", "discovery-info")
                 if info.get("schema_version") != "v1" or info.get("version_etag") != version:
@@ -1247,8 +1264,7 @@ def run_discovery(case):
     logging.disable(logging.CRITICAL)
     labels = set()
     with _sandbox() as root:
-        snap_dir = os.path.join(root, "snap")
-        cfg = make_cfg(-1.0, 1.0, snap_dir)
+        cfg, snap_dir = make_cfg(-1.0, 1.0, root)
 
         def V(msg, sig):
             raise Violation(msg + f"  (directory: {listing(snap_dir)})", case, sig)
